@@ -119,6 +119,14 @@ def clientScript (c : String) : Option (List Rd × Bool) :=
       -- the client waits for a verdict and then closes
       ([.data big, .eof], decide (max n 6 ≥ CAP))
   | ["verb", v] => some ([.data ((v ++ " /metrics HTTP/1.1\r\nHost: localhost\r\n\r\n").toUTF8.toList)], true)
+  | ["verbx", v, kind, n] => n.toNat?.bind fun n =>
+      -- a complete non-GET request whose path is n repetitions of a pattern: `utf8` = é (c3 a9), `bin` = 0x80 0xff,
+      -- `ascii` = ab
+      let pat : Option (List UInt8) := match kind with
+        | "utf8" => some [0xc3, 0xa9] | "bin" => some [0x80, 0xff] | "ascii" => some [97, 98] | _ => none
+      pat.map fun pat =>
+        ([.data ((v ++ " /").toUTF8.toList ++ (List.replicate n pat).flatten ++
+            " HTTP/1.1\r\nHost: localhost\r\n\r\n".toUTF8.toList)], true)
   | ["getreset"] => some ([.data getRequest, .err], false)
   | ["idle"] => some ([.eof], false)
   | _ => none
